@@ -43,13 +43,21 @@ static std::string observe(int id, const std::string &db, const std::string &tex
 }
 
 int main(int argc, char **argv) {
-  if (argc < 3 || (argc - 1) % 2) { fprintf(stderr, "usage: isodrive db input [db input ...]\n"); return 2; }
+  // --recycle: each instance is destroyed before the next is created (the allocator hands its storage to the successor:
+  // a member that no constructor / init() sets would continue the dead instance's value)
+  bool recycle = argc > 1 && std::string(argv[1]) == "--recycle";
+  if (recycle) { --argc; ++argv; }
+  if (argc < 3 || (argc - 1) % 2) { fprintf(stderr, "usage: isodrive [--recycle] db input [db input ...]\n"); return 2; }
   int n = (argc - 1) / 2;
   std::vector<int> ids;
-  for (int k = 0; k < n; ++k) ids.push_back(CreateIPhreeqc());
   std::string last;
-  for (int k = 0; k < n; ++k) last = observe(ids[k], argv[1 + 2 * k], slurp(argv[2 + 2 * k]));
-  for (int id : ids) DestroyIPhreeqc(id);
+  if (recycle) {
+    for (int k = 0; k < n; ++k) { int id = CreateIPhreeqc(); last = observe(id, argv[1 + 2 * k], slurp(argv[2 + 2 * k])); DestroyIPhreeqc(id); }
+  } else {
+    for (int k = 0; k < n; ++k) ids.push_back(CreateIPhreeqc());
+    for (int k = 0; k < n; ++k) last = observe(ids[k], argv[1 + 2 * k], slurp(argv[2 + 2 * k]));
+    for (int id : ids) DestroyIPhreeqc(id);
+  }
   std::cout << "{\"n\":" << n << ",\"last\":" << jstr(last) << "}" << std::endl;
   return 0;
 }
